@@ -33,6 +33,11 @@ var exprTable = []exprT{
 	{"(a|b)c", []string{"ac", "bc"}, []string{"c", "abc", ""}},
 	{"(x|y)+", []string{"x", "xy", "yyx"}, []string{"", "z", "xz"}},
 	{"v([0-9])", []string{"v1", "v9"}, []string{"v", "v12", "1"}},
+	// ... that also use Perl-only syntax (classes, non-capturing groups, lazy quantifiers)
+	{"(\\d+)", []string{"7", "42"}, []string{"", "x", "4x"}},
+	{"(\\w)\\.(\\w)", []string{"a.x", "b.1"}, []string{"a", "a.", "a.xx"}},
+	{"(a+?)b", []string{"ab", "aab"}, []string{"b", "a", "abb"}},
+	{"(?i)k(\\s|-)z", []string{"k-z", "K z"}, []string{"kz", "k--z"}},
 }
 
 var staticPool = []string{"a", "b", "users", "api", "v1", "a.b", "a+b", "(a)", "a$", "a*", "x-y", "~u", "p%41", "A", "index.html", "a!", "q=1", "a;b", "'q'", "@me", "a_b", "0"}
@@ -358,7 +363,9 @@ func makeIllFormed(r *rand.Rand, rg routeGen, pool *[]segGen) aRoute {
 			segs[i].Opt = false
 		}
 	case 6: // outside the grammar
-		return aRoute{Segs: segs, Gram: false, Raw: pick(r, []string{"a", "/a{", "/{x", "/a}", "/{x:}", "/a:b", "/[a]", "/{x: /a}", "/a,b", "/\"", "/a#", "", "/{x: /^a$/}"})}
+		return aRoute{Segs: segs, Gram: false, Raw: pick(r, []string{"a", "/a{", "/{x", "/a}", "/{x:}", "/a:b", "/[a]", "/{x: /a}", "/a,b", "/\"", "/a#", "", "/{x: /^a$/}",
+			// blanks are only part of the grammar after ":" and "," and inside an expression
+			"/hello world", "/{ name }", "/a/ ?b", "/a\tb", "/ a", "/{x : /a/}", "/{x: /a/ }", "/{x: /a/ , y: /b/}", "/a ", " /a", "/{x: ** , capture: 2}", "/a\n"})}
 	default: // duplicate of itself is produced by the caller
 	}
 	rt.Segs = segs
